@@ -918,17 +918,41 @@ func foldShape(c *core.Ctx, rule, name string, g *Goroutine, h *ssa.BasicBlock, 
 			}
 		}
 	}
-	if acc == nil {
-		c.Fail(rule, name, g.Fn.Pos(), "no exit path sends the content of an accumulator cell on the result channel")
-		return false
-	}
 	isEmpty := func(t *ir.Term) bool {
 		m, _, args, isC := callParts(t)
 		return isC && m == "Empty" && len(args) == 1 && args[0].Op == "param"
 	}
+	// the accumulator may also be a register carried round the element loop (no closure captures it: the result is
+	// sent by explicit statements on every exit instead of by a deferred function)
+	var accPhi *ssa.Phi
+	if acc == nil && h != nil {
+		for _, in := range h.Instrs {
+			phi, isPhi := in.(*ssa.Phi)
+			if !isPhi {
+				break
+			}
+			for _, p := range g.An.Segs[nil] {
+				if p.To == h && isEmpty(p.PhiOut[phi]) {
+					accPhi = phi
+				}
+			}
+		}
+	}
+	if acc == nil && accPhi == nil {
+		c.Fail(rule, name, g.Fn.Pos(), "no exit path sends the content of an accumulator cell on the result channel")
+		return false
+	}
 	// entry: acc := m.Empty()
 	for _, p := range g.An.Segs[nil] {
-		v := p.End.MemAt(acc)
+		var v *ir.Term
+		if accPhi != nil {
+			if p.To != h {
+				continue
+			}
+			v = p.PhiOut[accPhi]
+		} else {
+			v = p.End.MemAt(acc)
+		}
 		if !isEmpty(v) {
 			ok = false
 			c.Fail(rule, name, g.Fn.Pos(), "the accumulator is initialised with %s, expected the monoid's Empty()", short(v))
@@ -948,16 +972,34 @@ func foldShape(c *core.Ctx, rule, name string, g *Goroutine, h *ssa.BasicBlock, 
 		}
 	}
 	// iteration: acc' = Combine(acc, x) exactly once per element; unchanged otherwise
-	q := CellQuantity(g.An, acc)
+	var q Quantity
+	if accPhi == nil {
+		q = CellQuantity(g.An, acc)
+	}
 	for _, p := range g.An.Segs[h] {
 		f := factsAt(g.An, h, p)
-		startV := q.StartSym(p)
-		endV := q.ValueAt(p, len(p.Steps))
 		nComb := 0
+		var lastComb *ir.Term
 		for _, st := range p.Events(ir.KCall) {
 			if st.Method != nil && st.Method.Name() == "Combine" {
 				nComb++
+				lastComb = st.R
 			}
+		}
+		var startV, endV *ir.Term
+		if accPhi != nil {
+			startV = g.An.Start[h].Reg(accPhi)
+			switch {
+			case p.To == h:
+				endV = p.PhiOut[accPhi]
+			case lastComb != nil:
+				endV = lastComb // leaves after having combined: the register holds that result
+			default:
+				endV = startV
+			}
+		} else {
+			startV = q.StartSym(p)
+			endV = q.ValueAt(p, len(p.Steps))
 		}
 		if f.recv != nil {
 			m, _, args, isC := callParts(endV)
